@@ -32,7 +32,8 @@ def main():
     jobs = [('<BDD as PartialEq>::eq on canonical diagrams k=3', bddcore.unit_bdd_eq, (3, {}))]
     jobs += parsecore.parser_jobs(quick)[0]
     jobs += tokencore.jobs(quick)
-    shapes = list(shapes_one()) + [('fp', ('bin', 'L', 'L')), ('fp', ('cc', ('L', 'L'))), ('q', 1, ('fp', 'L')), ('not', ('cc', ('L', 'L', 'L')))]
+    shapes = list(shapes_one()) + [('fp', ('bin', 'L', 'L')), ('fp', ('cc', ('L', 'L'))), ('q', 1, ('fp', 'L')), ('not', ('cc', ('L', 'L', 'L'))),
+                                   ('fp', ('q', 1, ('bin', 'L', 'L'))), ('fp', ('q', 2, 'L')), ('q', 1, ('q', 1, ('bin', 'L', 'L'))), ('fp', ('bin', 'L', ('q', 1, 'L')))]
     for sh in shapes:
         kk = 2 if "'fp'" in repr(sh) and "'cc'" in repr(sh) else 3
         jobs.append(('eval %r k=%d dev profile' % (sh, kk), unit_sketch, (sh, kk, {})))
